@@ -56,6 +56,8 @@ def run(ctx):
     adoption(ctx)
     from .c06 import save_restore
     save_restore(ctx, "R18.4")
+    ctx.rule("R18.5", "copy constructors copy a field whenever it is present: presence is `is not None`, never truthiness")
+    presence_tests(ctx)
 
 
 # --------------------------------------------------------------------------- kinds
@@ -380,3 +382,38 @@ def adoption(ctx):
     osr = sa.args.args[1].arg
     adopt = [c for c in ast.walk(sa) if isinstance(c, ast.Call) and isinstance(c.func, ast.Attribute) and c.func.attr in ("insert", "append", "extend") and any(isinstance(a, ast.Name) and a.id == osr for a in c.args)]
     ctx.ob("R18.3", "Subpath.__radd__[PathSegment]", not adopt, "; ".join(ast.unparse(a) for a in adopt), sa.lineno, "segment + subpath stores the operand segment in the new path")
+
+
+def presence_tests(ctx):
+    """property_by_object methods rebuild each field of the source (`Color(s.fill) if s.fill is not None else None`).  A test of
+    the field's truth value instead drops every falsy value - a stroke width of 0, an empty point list, a zero length - and the
+    copy is no longer equal in value to its source.  All conditionals over a field of the source in all copy constructors are
+    listed; each must compare with None (or be some other explicit comparison)."""
+    n = 0
+    for q, fn in ctx.m.all_functions():
+        if q.split(".")[-1] != "property_by_object" or len(fn.args.args) < 2:
+            continue
+        src = fn.args.args[1].arg
+        for node in ast.walk(fn):
+            if not isinstance(node, (ast.IfExp, ast.If)):
+                continue
+            bare = []
+
+            def truthy_fields(t):
+                if isinstance(t, ast.BoolOp):
+                    for v in t.values:
+                        truthy_fields(v)
+                elif isinstance(t, ast.UnaryOp) and isinstance(t.op, ast.Not):
+                    truthy_fields(t.operand)
+                elif isinstance(t, ast.Attribute) and isinstance(t.value, ast.Name) and t.value.id == src:
+                    bare.append(t.attr)
+
+            mentions = any(isinstance(x, ast.Attribute) and isinstance(x.value, ast.Name) and x.value.id == src for x in ast.walk(node.test))
+            if not mentions:
+                continue
+            truthy_fields(node.test)
+            n += 1
+            ctx.ob("R18.5", "%s[presence of %s]" % (q, ", ".join(sorted({x.attr for x in ast.walk(node.test) if isinstance(x, ast.Attribute) and isinstance(x.value, ast.Name) and x.value.id == src}))),
+                   not bare, "test `%s`" % ast.unparse(node.test)[:60], node.lineno,
+                   "a truth test takes 0 / 0.0 / an empty value for 'absent': the copy of an element with stroke-width 0 has stroke_width None")
+    ctx.need(n >= 5, "R18.5", "conditionals over source fields in copy constructors not found (%d)" % n)
